@@ -7,8 +7,10 @@ import (
 	"testing/iotest"
 	"encoding/binary"
 	"fmt"
+	"hash/crc32"
 	"os"
 	"path/filepath"
+	"strconv"
 	"strings"
 	"testing/fstest"
 
@@ -63,9 +65,14 @@ func c18EvalOrder(c *Ctx, cs Case) {
 	for _, n := range nums {
 		want = append(want, fmt.Sprintf("Boot%04X", n)) // firmware naming: four upper-case hex digits
 	}
-	if len(order)%2 == 0 {
+	// a value of odd length holds len/2 16-bit entries and one byte that is no entry: the names are those of the entries
+	{
+		what := "BootOrder does not decode to the firmware names of the Boot#### variables"
+		if len(order)%2 == 1 {
+			what = "BootOrder of odd length does not decode to exactly the names of its 16-bit entries (the trailing byte is not an entry)"
+		}
 		if strings.Join(names, ",") != strings.Join(want, ",") {
-			c.Fail(Failure{Kind: "property", Matcher: "c18.lowercase_boot_names", What: "BootOrder does not decode to the firmware names of the Boot#### variables", Case: cs, Go: strings.Join(names, ","), Spec: strings.Join(want, ",")})
+			c.Fail(Failure{Kind: "property", Matcher: "c18.lowercase_boot_names", What: what, Case: cs, Go: strings.Join(names, ","), Spec: strings.Join(want, ",")})
 		} else if len(resolveErr) > 0 {
 			c.Fail(Failure{Kind: "property", What: "a returned boot name does not resolve through GetBootEntry although the variable exists", Case: cs, Go: strings.Join(resolveErr, "; ")})
 		}
@@ -93,7 +100,7 @@ func c18EvalOrder(c *Ctx, cs Case) {
 		efs.SetFS(oldFs)
 		if lpan {
 			c.Fail(Failure{Kind: "property", Matcher: "c18.legacy_boot_order", What: "efi.GetBootOrder / efi.GetBootEntry panicked: " + lmsg, Case: cs})
-		} else if len(order)%2 == 0 {
+		} else {
 			if strings.Join(lnames, ",") != strings.Join(want, ",") {
 				c.Fail(Failure{Kind: "property", Matcher: "c18.legacy_boot_order", What: "efi.GetBootOrder (legacy API) does not decode BootOrder to the firmware names of the Boot#### variables", Case: cs, Go: fmt.Sprintf("%q", lnames), Spec: fmt.Sprintf("%q", want)})
 			} else if len(lerrs) > 0 {
@@ -176,6 +183,87 @@ func lowerTexts(s string) string {
 	return strings.Join(parts, "text=")
 }
 
+// specLoadOption encodes a load option from its field description (the node syntax of genOption), written here from
+// the UEFI specification (EFI_LOAD_OPTION: Attributes u32, FilePathListLength u16, Description as NUL-terminated
+// UTF-16LE, then the device path nodes and the end node 7f ff 04 00; node = Type, SubType, Length u16 and: PCI
+// Function, Device; ACPI _HID, _UID; hard drive PartitionNumber u32, PartitionStart u64, PartitionSize u64,
+// Signature[16], MBRType (partition format), SignatureType; file path NUL-terminated UTF-16LE; firmware file GUID;
+// USB parent port, interface). It uses neither the library nor the Lean model, so that the expectation the decoder
+// is held against does not rest on either; the model's encoder is tied to it.
+func specLoadOption(attrs, plen int64, descHex, nodes string) ([]byte, bool) {
+	out := []byte{byte(attrs), byte(attrs >> 8), byte(attrs >> 16), byte(attrs >> 24), byte(plen), byte(plen >> 8)}
+	out = append(out, specUtf16(string(unhx(descHex)))...)
+	u32 := func(s string) []byte {
+		v, _ := strconv.ParseUint(s, 10, 32)
+		return []byte{byte(v), byte(v >> 8), byte(v >> 16), byte(v >> 24)}
+	}
+	u8 := func(s string) byte { v, _ := strconv.ParseUint(s, 10, 8); return byte(v) }
+	if nodes != "-" && nodes != "" {
+		for _, n := range strings.Split(nodes, "|") {
+			f := strings.Split(n, ":")
+			if len(f) < 2 {
+				return nil, false
+			}
+			out = append(out, unhx(f[1])...) // the four header bytes as the case gives them
+			switch {
+			case f[0] == "pci" && len(f) == 4, f[0] == "usb" && len(f) == 4:
+				out = append(out, u8(f[2]), u8(f[3]))
+			case f[0] == "acpi" && len(f) == 4:
+				out = append(append(out, unhx(f[2])...), unhx(f[3])...)
+			case f[0] == "hd" && len(f) == 8:
+				out = append(out, u32(f[2])...)
+				out = append(append(append(out, unhx(f[3])...), unhx(f[4])...), unhx(f[5])...)
+				out = append(out, u8(f[6]), u8(f[7]))
+			case f[0] == "file" && len(f) == 3:
+				out = append(out, specUtf16(string(unhx(f[2])))...)
+			case f[0] == "fw" && len(f) == 3:
+				out = append(out, unhx(f[2])...)
+			default:
+				return nil, false
+			}
+		}
+	}
+	return append(out, 0x7f, 0xff, 4, 0), true
+}
+
+// bootEntryVia decodes the load option b through the other public entry points of the same functionality:
+// device.ParseEFILoadOption followed by device.ParseDevicePath (what a caller of the two exported parsers does),
+// Efivarfs.GetBootEntry on an in-memory store that holds b as Boot0001, and the package-level efi.GetBootEntry.
+func bootEntryVia(b []byte) map[string]string {
+	out := map[string]string{}
+	obs := func(name string, f func() (*device.EFILoadOption, error)) {
+		var lo *device.EFILoadOption
+		var err error
+		switch p, _ := safely(func() { lo, err = f() }); {
+		case p:
+			out[name] = "panic"
+		case err != nil || lo == nil:
+			out[name] = "err"
+		default:
+			out[name] = "ok " + goLoadOptionStr(lo)
+		}
+	}
+	obs("ParseEFILoadOption+ParseDevicePath", func() (*device.EFILoadOption, error) {
+		buf := bytes.NewBuffer(append([]byte{}, b...))
+		lo, err := device.ParseEFILoadOption(buf)
+		if err != nil {
+			return nil, err
+		}
+		lo.FilePath, err = device.ParseDevicePath(buf)
+		return lo, err
+	})
+	files := fstest.MapFS{bootFile("Boot0001"): {Data: append([]byte{7, 0, 0, 0}, b...)}}
+	obs("Efivarfs.GetBootEntry", func() (*device.EFILoadOption, error) {
+		return testfs.NewTestFS().With(files).Open().GetBootEntry("Boot0001")
+	})
+	mem := afero.NewMemMapFs()
+	afero.WriteFile(mem, bootFile("Boot0001"), files[bootFile("Boot0001")].Data, 0o644)
+	withLegacyFs(mem, func() {
+		obs("efi.GetBootEntry", func() (*device.EFILoadOption, error) { return efi.GetBootEntry("Boot0001") })
+	})
+	return out
+}
+
 // decode bytes with the real decoder (in-process: the generator only emits complete options)
 func c18EvalOption(c *Ctx, cs Case) {
 	var b []byte
@@ -183,13 +271,16 @@ func c18EvalOption(c *Ctx, cs Case) {
 	if cs.S("bytes") != "" {
 		b = unhx(cs.S("bytes"))
 	} else {
-		// described by fields: ask the Spec encoder for the bytes
-		r := c.Drv.Ask("boot.encode", fmt.Sprint(cs.I("attrs")), fmt.Sprint(cs.I("len")), cs.S("desc"), cs.S("nodes"))
-		if r == "bad-op" {
-			c.Fail(Failure{Kind: "tie", What: "driver could not encode the generated load option", Case: cs})
+		// described by fields: the bytes come from the encoder written here from the specification; the
+		// model's Spec encoder must give the same bytes
+		var ok bool
+		if b, ok = specLoadOption(cs.I("attrs"), cs.I("len"), cs.S("desc"), cs.S("nodes")); !ok {
 			return
 		}
-		b = unhx(r)
+		r := c.Drv.Ask("boot.encode", fmt.Sprint(cs.I("attrs")), fmt.Sprint(cs.I("len")), cs.S("desc"), cs.S("nodes"))
+		if r != hx(b) {
+			c.Fail(Failure{Kind: "tie", What: "the model's load option encoder and the harness's encoder (both written from the specification) give different bytes", Case: cs, Model: clip(r), Go: clip(hx(b))})
+		}
 		// the independent expectation: exactly the generated fields, with the specification's text forms
 		want = fmt.Sprintf("attrs=%d len=%d desc=%s nodes=%s", cs.I("attrs"), cs.I("len"), cs.S("desc"), cs.S("want_nodes"))
 	}
@@ -248,6 +339,20 @@ func c18EvalOption(c *Ctx, cs Case) {
 						c.Fail(Failure{Kind: "property", Matcher: "c18.reader_kind", What: "ParseDevicePath decodes the same bytes differently through a " + kind + " reader than from memory", Case: cs, Go: clip(fmt.Sprint(gerr, " ", nodesStr(got))), Spec: clip(refStr)})
 					}
 				}
+			}
+		}
+	}
+	// the other public entry points decode the same bytes to the same load option (and to the fields it was built from)
+	// (quick tier: for every captured option and every second built one, chosen by a hash of the case so that a replay does the same)
+	if c.Thorough || cs.S("class") == "captured" || crc32.ChecksumIEEE([]byte(cs.Key()))%2 == 0 {
+		for name, got := range bootEntryVia(b) {
+			c.Count(cs.Key()+"|via|"+name, true, "option-via/"+name+"/"+strings.SplitN(got, " ", 2)[0])
+			exp := goObs
+			if want != "" {
+				exp = "ok " + want
+			}
+			if got != exp {
+				c.Fail(Failure{Kind: "property", What: name + " decodes the load option differently than the fields it was built from / than EFILoadOption.Unmarshal decodes the same bytes", Case: cs, Go: clip(got), Spec: clip(exp)})
 			}
 		}
 	}
@@ -483,6 +588,11 @@ func c18Gen(c *Ctx) {
 	for i := 0; i < c.N(200, 5000) && c.NFailures() < 8; i++ {
 		k := c.Rng.Intn(65)
 		o := make([]byte, 2*k)
+		// REPORTED FINDING, left out of the routine run: a value of odd length (2k+1 bytes: k entries and a trailing
+		// byte that is no 16-bit entry). Efivarfs.GetBootOrder returns k+1 names - the last one made up from the
+		// trailing byte and a zero byte (order fe16...2cca -> ..., Boot2CC0, Boot00CA) - while efi.GetBootOrder returns
+		// the k names. The oracle in c18EvalOrder judges odd lengths (exactly the names of the entries); to
+		// explore them here use: o = make([]byte, 2*k+1).
 		c.Rng.Read(o)
 		if c.Rng.Intn(2) == 0 {
 			for j := 1; j < len(o); j += 2 {
@@ -543,7 +653,7 @@ func c18Gen(c *Ctx) {
 
 func init() {
 	register("C18", &PropDef{
-		Rule:   "all 65536 boot numbers (exhaustive), each resolved through GetBootEntry on an in-memory store holding the firmware-named variable; boot orders of 0..64 entries; the captured Boot#### variables of tests/data/boot; generated load options of 0..5 nodes over PCI, ACPI, hard-drive (signature types GPT, MBR, none and arbitrary, with an equal or a different partition-format byte; partition numbers incl. 0), file-path (ASCII, non-BMP, empty), firmware-file and USB nodes with arbitrary field values, five fixed descriptions and random descriptions (Latin-1, code units with a zero low byte such as U+0100 and U+4E00, other BMP, non-BMP), encoded by the independent Spec encoder; sequences of 2..5 captured and generated load options decoded one after the other into ONE EFILoadOption value (300 sequences [thorough: 6000]; a quarter of the later members cut inside the device path list or down to 0..5 bytes, so that their decode returns an error) with every decoded result kept by the caller (struct copy and FilePath slice): each result must equal the decode of the same bytes into a fresh value and the model's, and every kept result must still read the same after all later decodes, failed ones included. Non-trivial: a non-empty order / an option longer than the minimal one / a sequence of at least two members; distinct = distinct cases.",
+		Rule:   "all 65536 boot numbers (exhaustive), each resolved through GetBootEntry on an in-memory store holding the firmware-named variable; boot orders of 0..64 entries; the captured Boot#### variables of tests/data/boot; generated load options of 0..5 nodes over PCI, ACPI, hard-drive (signature types GPT, MBR, none and arbitrary, with an equal or a different partition-format byte; partition numbers incl. 0), file-path (ASCII, non-BMP, empty), firmware-file and USB nodes with arbitrary field values, five fixed descriptions and random descriptions (Latin-1, code units with a zero low byte such as U+0100 and U+4E00, other BMP, non-BMP), encoded by an encoder written in the harness from the UEFI specification (the model's Spec encoder is tied to it byte for byte); every captured option and every second generated one [thorough: every one] is also decoded through the other public entry points - ParseEFILoadOption followed by ParseDevicePath, Efivarfs.GetBootEntry on an in-memory store that holds it as Boot0001, and the package-level efi.GetBootEntry - and must give the fields it was built from (captured: what Unmarshal gives); boot orders of odd length are judged (exactly the names of the complete entries) but not generated: Efivarfs.GetBootOrder fails them on the unchanged library (reported); sequences of 2..5 captured and generated load options decoded one after the other into ONE EFILoadOption value (300 sequences [thorough: 6000]; a quarter of the later members cut inside the device path list or down to 0..5 bytes, so that their decode returns an error) with every decoded result kept by the caller (struct copy and FilePath slice): each result must equal the decode of the same bytes into a fresh value and the model's, and every kept result must still read the same after all later decodes, failed ones included. Non-trivial: a non-empty order / an option longer than the minimal one / a sequence of at least two members; distinct = distinct cases.",
 		Assume: []string{"load options handed to the in-process decoder are complete (truncated ones end the process on the unrepaired tree and are C14's domain), except the failing members of the decode sequences, which are cut inside the description / device path list and must come back as an error"},
 		Eval:   c18Eval, Gen: c18Gen,
 	})
